@@ -339,4 +339,4 @@ def run(ctx):
             check(ctx, single_pattern_case(pat))
             n += 1
     ctx.extra["exhaustive_subspaces"] = [f"every valid dep5 pattern of 1..{maxlen} atoms over {{a b . / * ? \\* \\? \\\\}} as a one-paragraph project with instantiated witness paths"]
-    hyp_run(ctx, "dep5", dep5_case(), lambda c: check(ctx, c), 150 if q else 3000)
+    hyp_run(ctx, "dep5", dep5_case(), lambda c: check(ctx, c), 250 if q else 3000)
